@@ -8,6 +8,10 @@ Local Open Scope N_scope.
 (* an integer item and the value read_integer assigns to it (within the int64 range) *)
 Definition int_enc (x : item) (z : Z) : Prop :=
   exists neg w n, x = IInt neg w n /\ wfits w n /\ n < two63 /\ z = (if neg then -1 - Z.of_N n else Z.of_N n)%Z.
+(* a map KEY: any integer item at all; outside the int64 range read_integer returns the nearest end of the range - which no structure
+   defines as a key, so such a member is an unknown member like any other *)
+Definition key_enc (x : item) (z : Z) : Prop :=
+  exists neg w n, x = IInt neg w n /\ wfits w n /\ z = (if neg then neg_of n else clamp_i64 n).
 Definition uint_enc (x : item) (n : N) : Prop := exists w, x = IInt false w n /\ wfits w n.
 Definition str_enc (text : bool) (x : item) (bs : list N) : Prop :=
   (exists w, x = IStr text w bs /\ wfits w (N.of_nat (length bs))) \/
@@ -29,7 +33,7 @@ Fixpoint enc_of (t : ty) (x : item) (v : val) {struct t} : Prop :=
   | TTime => exists xs s k, arr_enc x xs /\ Forall2 uint_enc xs [s; k] /\ v = VL [VN s; VN k]
   | TArr e => exists xs vs, arr_enc x xs /\ Forall2 (enc_of e) xs vs /\ v = VL vs
   | TIdx => exists xs ns, arr_enc x xs /\ Forall2 uint_enc xs ns /\ v = VL (map (fun n => VN (n mod 2 ^ 32)) ns)
-  | TMap _ accs fs => exists es, map_enc x es /\ Forall (fun e => int_enc (e_kx e) (e_key e) /\ fenc fs O (e_key e) (e_vx e) (e_upd e)) es /\
+  | TMap _ accs fs => exists es, map_enc x es /\ Forall (fun e => key_enc (e_kx e) (e_key e) /\ fenc fs O (e_key e) (e_vx e) (e_upd e)) es /\
                             mand_ok fs (fold_left (apply_e accs) es (init_rec fs)) = true /\
                             v = VR (fill_always fs (fold_left (apply_e accs) es (init_rec fs)))
   end
@@ -65,8 +69,20 @@ Qed.
 Lemma int_enc_reads x z rest : int_enc x z -> run read_integer (ser x ++ rest) = (inl z, rest).
 Proof.
   intros (neg & w & n & -> & Hf & Hn & ->). rewrite read_integer_spec by auto.
-  destruct neg; [rewrite neg_of_small|rewrite to_i64_small]; auto.
+  destruct neg; [rewrite neg_of_small|rewrite clamp_i64_small]; auto.
 Qed.
+Lemma int_enc_key x z : int_enc x z -> key_enc x z.
+Proof.
+  intros (neg & w & n & -> & Hf & Hn & ->). exists neg, w, n. repeat split; auto.
+  destruct neg; [rewrite neg_of_small|rewrite clamp_i64_small]; auto.
+Qed.
+Lemma key_enc_first x z : key_enc x z -> wf x /\ exists b r, ser x = b :: r /\ b <> 255.
+Proof.
+  intros (neg & w & n & -> & Hf & _). split; [exact Hf|]. cbn [ser]. unfold head. eexists _, _. split; [reflexivity|].
+  pose proof (wai_lt w n Hf). destruct neg; cbn [mint mcode]; lia.
+Qed.
+Lemma key_enc_reads x z rest : key_enc x z -> run read_integer (ser x ++ rest) = (inl z, rest).
+Proof. intros (neg & w & n & -> & Hf & ->). apply read_integer_spec. exact Hf. Qed.
 
 Lemma map_loop_indef accs rdk sk : forall es g rec rest, Forall (entry_ok rdk sk) es ->
   Forall (fun e => exists b r, ser (e_kx e) = b :: r /\ b <> 255) es -> (length es < g)%nat ->
@@ -236,7 +252,7 @@ Proof.
       cbn [length] in Hg. rewrite app_length in Hg. lia. }
     assert (Hwfl : wfl (flat_entries es)).
     { apply wfl_of_Forall. clear Hm Hmand Hlen. unfold flat_entries. induction HF as [|e es' [Hk Hv] _ IHl]; [constructor|].
-      cbn [flat_map app]. constructor; [apply (int_enc_first _ _ Hk)|]. constructor; [|exact IHl].
+      cbn [flat_map app]. constructor; [apply (key_enc_first _ _ Hk)|]. constructor; [|exact IHl].
       apply (IH (S (length (ser (e_vx e)))) 0%nat (e_key e) (e_vx e) (e_upd e) Hfo Hv). lia. }
     split.
     + destruct Hm as [(w & -> & Hf)| -> ]; cbn [wf]; unfold cnt; rewrite flat_entries_length.
@@ -248,11 +264,11 @@ Proof.
       { clear Hm Hmand Hg Hwfl. induction HF as [|e es' [Hk Hv] _ IHl]; [split; constructor|].
         cbn [flat_map] in Hlen. rewrite app_length in Hlen. unfold ser_entry at 1 in Hlen. rewrite app_length in Hlen.
         destruct IHl as [I1 I2]; [lia|]. split; constructor; auto.
-        - unfold entry_ok. split; [intros rest'; apply int_enc_reads; exact Hk|].
+        - unfold entry_ok. split; [intros rest'; apply key_enc_reads; exact Hk|].
           destruct (IH g 0%nat (e_key e) (e_vx e) (e_upd e) Hfo Hv) as [Hwv Hmatch]; [lia|].
           destruct (find_field g fs 0 (e_key e)) as [[j rd]|]; destruct (e_upd e) as [[j' v']|]; try contradiction; auto.
           intros rest'. apply skip_item_spec; auto. lia.
-        - apply (int_enc_first _ _ Hk). }
+        - apply (key_enc_first _ _ Hk). }
       destruct Hok as [Hok Hfirst]. pose proof (length_entries_le es) as Hle.
       rewrite run_bind. unfold read_map_start.
       destruct Hm as [(w & -> & Hf)| -> ].
@@ -345,7 +361,7 @@ Qed.
 Theorem canonical_enc :
   (forall t v, desc_ok t = true -> has_ty t v -> enc_of t (tree_of t v) v) /\
   (forall fs sk vs, fields_ok fs = true -> fields_ty sk fs vs -> NoDup (fkeys fs) -> forall i,
-     Forall (fun e => int_enc (e_kx e) (e_key e) /\ fenc fs i (e_key e) (e_vx e) (e_upd e)) (entries_of i fs vs)).
+     Forall (fun e => key_enc (e_kx e) (e_key e) /\ fenc fs i (e_key e) (e_vx e) (e_upd e)) (entries_of i fs vs)).
 Proof.
   apply ty_fields_ind.
   - intros bits [n|z|b|bs|xs|fs] _ H; try contradiction. cbn [has_ty] in H. destruct H as [Hn Hb]. cbn [enc_of tree_of].
@@ -387,7 +403,7 @@ Proof.
     cbn [fkeys] in Hnd. inversion Hnd as [|? ? Hni Hnd']; subst.
     cbn [entries_of]. apply Forall_app. split.
     + destruct v as [x|]; [|constructor]. destruct (present p (Some x)) eqn:Hp; [|constructor]. constructor; [|constructor].
-      cbn [e_kx e_key e_vx e_upd]. split; [apply int_item_enc; unfold two63; destruct sk; lia|].
+      cbn [e_kx e_key e_vx e_upd]. split; [apply int_enc_key; apply int_item_enc; unfold two63; destruct sk; lia|].
       cbn [fenc]. rewrite Z.eqb_refl. exists x. split; [reflexivity|]. apply IHt; auto.
       destruct p; try tauto. destruct x; try contradiction. exact Hv.
     + specialize (IHr sk vs Hdr Hr Hnd' (S i)). rewrite Forall_forall in *. intros e He. destruct (IHr e He) as [A B]. split; [exact A|].
